@@ -191,6 +191,51 @@ def passthrough(sl):
     observe("no state created", TASK not in tc.task_stats)
 
 
+def passthrough_mixed(sl):
+    """a task whose runner supplies the throughput, with requests that failed under on-error=continue in between (those carry no
+    supplied value: 0 operations, throughput None). Two successive post-processing calls with arbitrary batches: every supplied value comes
+    out exactly once and unchanged, and no value is None or negative - wherever the stream is cut."""
+    n1, n2 = sl["first"], sl["second"]
+    with shadowed(driver, ("int",)):
+        batches, supplied = [], []
+        for b, n in enumerate((n1, n2)):
+            batch = []
+            for i in range(n):
+                t = fresh_real("t_%d_%d" % (b, i), 0)
+                has = bool(fresh_bool("runner_supplied_throughput_%d_%d" % (b, i)))
+                stp = fresh_int("type_%d_%d" % (b, i), 0, 1)
+                if has:
+                    thr = fresh_real("supplied_%d_%d" % (b, i), 0)
+                    smp = S(t, fresh_int("ops_%d_%d" % (b, i), 0), stp, 0, "s%d_%d" % (b, i), throughput=thr)
+                    supplied.append(smp)
+                else:
+                    smp = S(t, 0, stp, 0, "f%d_%d" % (b, i), unit="ops")  # what execute_single records for a failed request
+                batch.append(smp)
+            batches.append(batch)
+        tc = driver.ThroughputCalculator()
+        outs = []
+        for batch in batches:
+            try:
+                outs.append(tc.calculate(list(batch), bucket_interval_secs=BI).get(TASK, []) if batch else [])
+            except Exception as e:  # noqa: BLE001
+                core.note("calculate raised", repr(e))
+                observe("post-processing copes with failed requests in a task whose runner supplies the throughput", False)
+                return
+        tuples = [tp for out in outs for tp in out]
+        core.trace("tuples", len(tuples))
+        core.note("supplied / tuples", (len(supplied), len(tuples)))
+        observe("no throughput value is None", all(tp[3] is not None for tp in tuples))
+        for tp in tuples:
+            if tp[3] is not None:
+                observe("values are non-negative", tp[3] >= 0)
+        for smp in supplied:
+            mine = [tp for tp in tuples if tp[3] is smp.throughput]
+            observe("a supplied throughput comes out exactly once (never dropped, recomputed or repeated by a later call)", len(mine) == 1)
+            if len(mine) == 1:
+                observe("unchanged, with the time, sample type and unit of its sample",
+                        mine[0][0] is smp.absolute_time and mine[0][2] == smp.sample_type and mine[0][4] == "docs/s")
+
+
 TASK_B = track.Task("other", track.Operation("op2", "search"))
 
 
@@ -257,4 +302,9 @@ HARNESSES = [
             doc="frame condition: a batch without samples of a task leaves that task's state unchanged"),
     Harness("passthrough", passthrough, "symbolic", lambda tier: [{"new": n} for n in (1, 2, 3)], reads=READS,
             bounds={"new": "<=3"}, real_valued=True, doc="runner-supplied throughput is passed through"),
+    Harness("passthrough_mixed", passthrough_mixed, "symbolic", lambda tier: [{"first": a, "second": b, "_w": a + b} for (a, b) in ((1, 1), (2, 1), (1, 2), (2, 2), (3, 0))]
+            + ([{"first": 3, "second": 2, "_w": 6}] if tier == "thorough" else []), reads=READS,
+            bounds={"batches": "two successive calls with <=2 (3) samples each", "samples": "each either with a runner-supplied throughput (symbolic >= 0) or a failed request (0 ops, none supplied)",
+                    "times, types": "symbolic"}, real_valued=True,
+            doc="supplied values exactly once and unchanged when failed requests are mixed in, however the stream is cut"),
 ]
